@@ -14,43 +14,65 @@ Require Import V.Lib.Base V.C18.Model V.C18.Disp V.C18.Proofs V.C18.ProofsTok V.
 Require Import V.C18.ProofsDisp V.C18.ProofsDispThm.
 Local Open Scope Z_scope.
 
-(* the main flow has executed its last operation and holds at least one block *)
-Definition shut_core (c : st) : Prop := ops c = [] /\ mpc_ c = MOp /\ 1 <= depth c.
+(* the main flow has executed its last operation and holds at least one block, and no callback is running (a callback
+   that is running may itself hold blocks it took - cb_block - ; shutdown starts in the main flow, with no activation at all) *)
+Definition shut_core (c : st) : Prop :=
+  ops c = [] /\ mpc_ c = MOp /\ 1 <= depth c /\ Forall (fun f => in_cb f = false) (stack c).
 Definition shut (s : ost) : Prop := shut_core (core s).
 
 Lemma shut_core_arrive x c : shut_core c -> shut_core (arrive x c).
-Proof. intros (Ho & Hm & Hd). repeat split; assumption. Qed.
+Proof. intros (Ho & Hm & Hd & Hcb). repeat split; try assumption. cbn [arrive stack]. constructor; [reflexivity|exact Hcb]. Qed.
 
-Lemma shut_core_step0 c : shut_core c -> shut_core (step true 0 c).
+Lemma shut_blocked c : Inv c -> 1 <= depth c -> 1 <= blocked c.
+Proof. intros Hi Hd. pose proof (i_cnt c Hi). pose proof (i_stp c Hi). pose proof (nactive_nonneg (stack c)). lia. Qed.
+
+Lemma shut_core_step0 c : Inv c -> shut_core c -> shut_core (step true 0 c).
 Proof.
-  intros (Ho & Hm & Hd). unfold step. cbn [Z.eqb]. destruct (stack c) as [|f rest] eqn:Hs.
-  - unfold mstep. rewrite Hm, Ho. repeat split; assumption.
-  - unfold hstep.
-    destruct (h_pc f); [ | | destruct (answers c) as [|[|] ?] | destruct (pending c =? 0) | | ];
-      cbn [ops mpc_ depth]; repeat split; assumption.
+  intros Hi (Ho & Hm & Hd & Hcb). pose proof (shut_blocked c Hi Hd) as Hbl.
+  unfold step. cbn [Z.eqb]. destruct (stack c) as [|f rest] eqn:Hs.
+  - unfold mstep. rewrite Hm, Ho. repeat split; try assumption. rewrite Hs. constructor.
+  - inversion Hcb as [|? ? Hf Hrest]; subst. unfold in_cb in Hf. unfold hstep.
+    destruct (h_pc f) eqn:Hpc; try discriminate.
+    + assert (Hb : (blocked c =? 0) = false) by (apply Z.eqb_neq; lia). rewrite Hb.
+      repeat split; try assumption. cbn [stack]. constructor; [reflexivity|exact Hrest].
+    + destruct (pending c =? 0); repeat split; try assumption; cbn [stack]; (constructor; [reflexivity|exact Hrest]).
+    + repeat split; try assumption; cbn [stack]; (constructor; [reflexivity|exact Hrest]).
+    + repeat split; try assumption.
 Qed.
 
-(* what a step of the OS layer does to the application object: nothing, one atomic step, or an arrival *)
+(* no callback is running: nothing can call blockSignals() from inside one *)
+Lemma cbb_no_cb c : Forall (fun f => in_cb f = false) (stack c) -> cb_block c = c.
+Proof.
+  intro H. unfold cb_block. destruct (stack c) as [|f r]; [reflexivity|]. inversion H as [|? ? Hf _]; subst.
+  unfold in_cb in Hf. destruct (h_pc f); try reflexivity; discriminate.
+Qed.
+
+(* what a step of the OS layer does to the application object: nothing, one atomic step (possibly with the entered
+   callback's own blockSignals()), or an arrival *)
 Lemma ostep_core d s :
-  core (ostep d s) = core s \/ core (ostep d s) = step true 0 (core s) \/ exists x, core (ostep d s) = arrive x (core s).
+  core (ostep d s) = core s \/ core (ostep d s) = step true 0 (core s) \/ core (ostep d s) = cb_block (step true 0 (core s)) \/
+  exists x, core (ostep d s) = arrive x (core s).
 Proof.
   unfold ostep. destruct (d =? 0).
   - destruct (hs s) as [|e r].
     + destruct (at_op (core s)).
       * destruct (objstep (reg s)); cbn [core]; auto.
-      * cbn [core]; auto.
+      * cbn [core]. unfold cstep. destruct (cbblock_now (core s) (reg s)); auto.
     + destruct (s_ph e).
       * destruct (inst (reg s)) as [[|n]|]; cbn [core]; eauto.
-      * cbn [core]; auto.
+      * cbn [core]. unfold cstep. destruct (cbblock_now (core s) (reg s)); auto.
       * cbn [core]; auto.
   - destruct (is_sig d); [destruct (dsp s d)|]; cbn [core]; auto.
 Qed.
 
-Lemma shut_ostep d s : shut s -> shut (ostep d s).
+Lemma shut_ostep pre d s : oreach pre s -> shut s -> shut (ostep d s).
 Proof.
-  unfold shut. intro H. destruct (ostep_core d s) as [E|[E|[x E]]]; rewrite E.
+  unfold shut. intros Hr H. destruct (os_core_reach pre s Hr) as (o & a & Hb & Hc). pose proof (reach_inv o a _ Hb Hc) as Hi.
+  pose proof (shut_core_step0 _ Hi H) as H0.
+  destruct (ostep_core d s) as [E|[E|[E|[x E]]]]; rewrite E.
   - exact H.
-  - apply shut_core_step0. exact H.
+  - exact H0.
+  - rewrite cbb_no_cb; [exact H0|]. destruct H0 as (_ & _ & _ & Hcb). exact Hcb.
   - apply shut_core_arrive. exact H.
 Qed.
 
@@ -58,17 +80,8 @@ Qed.
 Lemma shut_core_start c : Inv c -> stack c = [] -> mpc_ c = MOp -> ops c = [Block] ->
   shut_core (step true 0 c) /\ blocked (step true 0 c) = blocked c + 1 /\ fates (step true 0 c) = fates c.
 Proof.
-  intros Hi Hs Hm Ho. unfold step. cbn [Z.eqb]. rewrite Hs. unfold mstep. rewrite Hm, Ho. unfold shut_core. cbn [ops mpc_ depth blocked fates].
-  pose proof (i_dep c Hi). repeat split; try reflexivity. lia.
-Qed.
-
-(* while the flow holds a block no activation is about to enter / inside the callback (c18_never_while_blocked) *)
-Lemma blocked_no_cb o a c : bal 0 o = true -> reach o a c -> 1 <= depth c -> Forall (fun f => in_cb f = false) (stack c).
-Proof.
-  intros Hb Hr Hd. apply Forall_forall. intros f Hin.
-  destruct (in_cb f) eqn:E; [|reflexivity]. exfalso.
-  destruct (in_split f (stack c) Hin) as (pre & post & Hsp).
-  destruct (never_while_blocked o a c pre f post Hb Hr Hsp E) as (H0 & _). lia.
+  intros Hi Hs Hm Ho. unfold step. cbn [Z.eqb]. rewrite Hs. unfold mstep. rewrite Hm, Ho. unfold shut_core. cbn [ops mpc_ depth blocked fates stack].
+  pose proof (i_dep c Hi). rewrite Hs. repeat split; try reflexivity; [lia|constructor].
 Qed.
 
 (* the arrivals handed to the callback so far *)
@@ -76,10 +89,10 @@ Definition is_del (x : nat * fate) : bool := match snd x with FDelivered _ => tr
 Definition delivered (c : st) : list (nat * fate) := filter is_del (fates c).
 
 (* a step from such a state hands nothing to the callback *)
-Lemma shut_step_no_delivery c : shut_core c -> Forall (fun f => in_cb f = false) (stack c) ->
+Lemma shut_step_no_delivery c : shut_core c ->
   delivered (step true 0 c) = delivered c.
 Proof.
-  intros (Ho & Hm & Hd) Hcb. unfold delivered, step. cbn [Z.eqb]. destruct (stack c) as [|f rest] eqn:Hs.
+  intros (Ho & Hm & Hd & Hcb). unfold delivered, step. cbn [Z.eqb]. destruct (stack c) as [|f rest] eqn:Hs.
   - unfold mstep. rewrite Hm, Ho. reflexivity.
   - inversion Hcb as [|? ? Hf _]; subst. unfold in_cb in Hf. unfold hstep.
     destruct (h_pc f); try discriminate.
@@ -96,7 +109,7 @@ Proof. reflexivity. Qed.
 Lemma shut_inc_goes_to_test c f rest : Inv c -> shut_core c -> stack c = f :: rest -> h_pc f = HInc ->
   exists f', stack (step true 0 c) = f' :: rest /\ h_pc f' = HTest /\ h_sig f' = h_sig f /\ h_id f' = h_id f.
 Proof.
-  intros Hi (_ & _ & Hd) Hs Hpc. unfold step. cbn [Z.eqb]. rewrite Hs. unfold hstep. rewrite Hpc.
+  intros Hi (_ & _ & Hd & _) Hs Hpc. unfold step. cbn [Z.eqb]. rewrite Hs. unfold hstep. rewrite Hpc.
   pose proof (i_cnt c Hi) as Hc. pose proof (i_stp c Hi). pose proof (nactive_nonneg (stack c)).
   assert (Hb : (blocked c =? 0) = false) by (apply Z.eqb_neq; lia).
   rewrite Hb. eexists. split; [reflexivity|]. cbn [h_pc h_sig h_id]. auto.
@@ -109,13 +122,15 @@ Proof.
   induction ds as [|d ds IH]; intros s Hr Hsh; [simpl; auto|].
   cbn [oexec fold_left].
   assert (Hr' : oreach pre (ostep d s)) by (constructor; exact Hr).
-  pose proof (shut_ostep d s Hsh) as Hsh'.
+  pose proof (shut_ostep pre d s Hr Hsh) as Hsh'.
   destruct (IH (ostep d s) Hr' Hsh') as (A & B & C).
   split; [exact A|]. split; [exact B|]. unfold oexec in C. rewrite C.
   destruct (os_core_reach pre s Hr) as (o & a & Hb & Hc).
-  destruct (ostep_core d s) as [E|[E|[x E]]]; rewrite E.
+  pose proof (shut_core_step0 _ (reach_inv o a _ Hb Hc) Hsh) as (_ & _ & _ & Hcb0).
+  destruct (ostep_core d s) as [E|[E|[E|[x E]]]]; rewrite E.
   - reflexivity.
-  - apply shut_step_no_delivery; [exact Hsh|]. destruct Hsh as (_ & _ & Hd). exact (blocked_no_cb o a (core s) Hb Hc Hd).
+  - apply shut_step_no_delivery. exact Hsh.
+  - rewrite (cbb_no_cb _ Hcb0). apply shut_step_no_delivery. exact Hsh.
   - apply arrive_delivered.
 Qed.
 
@@ -132,8 +147,8 @@ Proof.
   intros Hr Hsh. cbv zeta. destruct (shut_run pre ds s Hr Hsh) as (A & B & C).
   destruct (os_core_reach pre _ A) as (o & a & Hb & Hc).
   pose proof (reach_inv o a _ Hb Hc) as Hi.
-  assert (Hd : 1 <= depth (core (oexec ds s))) by (destruct B as (_ & _ & Hd); exact Hd).
-  pose proof (blocked_no_cb o a _ Hb Hc Hd) as Hcb.
+  assert (Hd : 1 <= depth (core (oexec ds s))) by (destruct B as (_ & _ & Hd & _); exact Hd).
+  assert (Hcb : Forall (fun f => in_cb f = false) (stack (core (oexec ds s)))) by (destruct B as (_ & _ & _ & Hcb); exact Hcb).
   split; [exact A|]. split; [exact B|].
   split. { pose proof (i_cnt _ Hi). pose proof (i_stp _ Hi). pose proof (nactive_nonneg (stack (core (oexec ds s)))). lia. }
   split; [exact Hcb|].
@@ -182,7 +197,7 @@ Theorem no_callback_from_shutdown pre s fl ds : oreach pre s -> hs s = [] -> at_
 Proof.
   intros Hr Hh Hat Ho Hf. cbv zeta. cbn [oexec fold_left].
   destruct (shutdown_starts pre s fl Hr Hh Hat Ho Hf) as (A & _ & C & _).
-  destruct (shutdown_blocks_for_good pre (ostep 0 s) ds (oreach_step pre s 0 Hr) A) as (R & (_ & _ & D) & B & F & E1 & E2 & Dl & _).
+  destruct (shutdown_blocks_for_good pre (ostep 0 s) ds (oreach_step pre s 0 Hr) A) as (R & (_ & _ & D & _) & B & F & E1 & E2 & Dl & _).
   split; [exact R|]. split; [exact D|]. split; [exact B|]. split; [exact F|]. split; [exact E1|]. split; [exact E2|].
   unfold oexec in Dl. rewrite Dl. unfold delivered. rewrite C. reflexivity.
 Qed.
